@@ -338,6 +338,7 @@ def gen_case(streams, tier):
             # top_model left to its default (the first model listed) when 'top' is listed first
             'default_top': f.random() < 0.5,
             'clock': clock,
+            'default_one': f.random() < 0.3,
             'sched': world.gen_sched(streams, with_iter=False)}
 
 
@@ -401,7 +402,12 @@ def run(case, res):
                 pyrtl.input_from_blif(src, block=blk, merge_io_vectors=case['merge'], top_model='top',
                                       clock_name=case.get('clock') or 'clk')
         blk.sanity_check()
-        sim = pyrtl.Simulation(tracer=pyrtl.SimulationTrace(block=blk), block=blk)
+        # (a latch with init code 0 or none starts at 0 whatever the simulator's default_value is;
+        # codes 2 and 3 are don't-cares and both start values are admitted below; the $_DFF cells
+        # have no initial value in the file at all, so designs with them keep default_value 0)
+        sim = pyrtl.Simulation(tracer=pyrtl.SimulationTrace(block=blk), block=blk,
+                               default_value=1 if (case.get('default_one') and not any(
+                                   c['k'] == 'flop' for m_ in case['models'] for c in m_['cmds'])) else 0)
     except Exception as e:
         return Violation('import', 'raises_on_supported_netlist', {'exc': repr(e)[:300], 'text': text[:1500]}, tags)
     res.log.log('import', 'blif', len(text), len(blk.logic))
